@@ -772,6 +772,19 @@ func (m *model) closure() ([]xstate.Violation, string) {
 				add("c01.closure", "user-unreadable", "%v", err)
 				return viol, "closure-aborted"
 			}
+			if m.p.NoRemote {
+				// replicas exchange directly: pull from every peer
+				for _, y := range m.names {
+					if y == x {
+						continue
+					}
+					if err := bug.Pull(repo, resolvers(repo), y, u); err != nil {
+						add("c01.closure", "pull-fails:"+errClass(err.Error()), "synchronisation: pull on %s from %s failed: %v", x, y, err)
+						return viol, "closure-aborted"
+					}
+				}
+				continue
+			}
 			if err := bug.Pull(repo, resolvers(repo), "R", u); err != nil {
 				add("c01.closure", "pull-fails:"+errClass(err.Error()), "synchronisation: pull on %s failed: %v", x, err)
 				return viol, "closure-aborted"
